@@ -186,6 +186,11 @@ def _vals(g, t, n, prof, form, delim):
                 raw[dl] = ord(delim)
             if delim == "\t":
                 pass
+            if g.random() < 0.15:
+                # ASCII is more than the printable characters: NULs in the middle of a value, control characters (no
+                # line breaks: LF, CR, VT, FF stay out)
+                cz = g.random((n, w)) < 0.15
+                raw[cz] = np.array([0, 0, 0, 1, 7, 8, 0x1B, 0x1F, 0x7F], dtype="u1")[g.integers(0, 9, int(cz.sum()))]
             ln = g.integers(0, w + 1, n)
             ln[g.random(n) < 0.5] = w
         col = np.arange(w)[None, :]
@@ -219,10 +224,14 @@ def zeros_like_recipe(fields, nrows):
 
 _STR_PIECES = ["", "abc", "it's", 'say "hi"', "line1\nline2", "THE END", "END", "SIZE = 3", "tab\there",
                "back\\slash", "END\n", "\nEND\n", "{'a': 1}", "trailing space ", "#comment", "%s %d",
-               "'''", '"""', "\\n", "a" * 70, "word " * 30, "SIZE =                   10", "\r\n"]
+               "'''", '"""', "\\n", "a" * 70, "word " * 30, "SIZE =                   10", "\r\n",
+               # text that looks like literals of other dialects (python 2 longs, octal, u'' prefixes, numpy reprs)
+               "bottle of 2L", "100L", "0x1fL 7l", "u'abc'", "0777", "1e5L", "array([1, 2])", "nan", "inf", "True", "None",
+               "b'12L'", "1_000", "0o17 0b1"]
 _KEYS = ["date", "age", "END", "SIZE", "note", "survey", "n rows", "it's", "Key", "size", "nrows", "delim",
          "dtype", "BLEND", "x", "long_key_name_to_force_wrapping_of_the_pretty_printer", "k2", "version",
-         " lead", "trail ", "", "new\nline", "quo'te", 'dq"', "tab\tkey", "Size", "THE END", "a.b", "1", "None"]
+         " lead", "trail ", "", "new\nline", "quo'te", 'dq"', "tab\tkey", "Size", "THE END", "a.b", "1", "None",
+         "run 7L", "42L", "u'k'", "nan"]
 
 
 def gen_value(r, depth=0):
@@ -242,7 +251,7 @@ def gen_value(r, depth=0):
     if k == "ustr":
         return pick(r, ["größe", "données λ", "naïve END"])
     if k == "bytes":
-        return pick(r, [b"", b"ab\x00c", b"END", b"\xff\xfe", b"it's"])
+        return pick(r, [b"", b"ab\x00c", b"END", b"\xff\xfe", b"it's", b"12L", b"0x1fL", b"50%"])
     if k == "none":
         return None
     if k == "bool":
